@@ -399,12 +399,24 @@ def layer_tree(layer: str, prog: dict):
     if layer != "template" and not edits and layer not in prog.get("benign", []) and layer not in prog.get("extra", {}):
         return None
     t = base_layer(layer, prog)
+    if layer == "template" and prog.get("bigField"):
+        # an unusually large target: one string field of that many characters (kept out of the program's own
+        # description so that cases stay readable)
+        t = tree_merge(t, node(spec=node(blob=leaf("x" * int(prog["bigField"]), via=prog.get("tmplForm") != "ref"))))
     if layer in prog.get("extra", {}):
         t = tree_merge(t, prog["extra"][layer])
     for e in edits:
         via = e.get("via", False) and not (layer == "template" and prog.get("tmplForm") == "ref")
         t = tree_merge(t, EDITS[e["kind"]](via))
     return t
+
+
+def id_text(value) -> str:
+    """what an evaluated apiConfig name / namespace is as text (`f"{value}"` of the CEL value): a string stays
+    as it is — blanks, newlines and all —, a number is written out"""
+    if isinstance(value, str):
+        return value
+    return f"{celpy.json_to_cel(value)}"
 
 
 def build(prog: dict) -> dict:
@@ -414,7 +426,9 @@ def build(prog: dict) -> dict:
     prefix, namespaced = prog["prefix"], prog["namespaced"]
     kind, plural = kind_for(prefix, namespaced)
     inputs: dict = {}
-    name, ns = prog.get("name", NAME), prog.get("apiNs", NS if namespaced else None)
+    locals_: dict = {}
+    raw_name, raw_ns = prog.get("name", NAME), prog.get("apiNs", NS if namespaced else None)
+    name, ns = id_text(raw_name), (None if raw_ns is None else id_text(raw_ns))
     api_version = prog.get("apiVersion", API_VERSION)
     sfx = prog.get("suffix", "")          # several functions prepared side by side (concurrent mode)
     # what the spec DECLARES may differ from the scope / plural of the kind as first registered in the process
@@ -422,8 +436,12 @@ def build(prog: dict) -> dict:
     api = {"apiVersion": api_version, "kind": kind, "plural": prog.get("declPlural", plural),
            "namespaced": prog.get("declNamespaced", namespaced)}
     plural = prog.get("regPlural", plural)     # the plural the kind was first registered with
-    if prog.get("nameVia"):
-        inputs["objName"] = name
+    if prog.get("nameVia") == "locals":     # the expression itself reads no input: the name comes through `locals`
+        inputs["objName"] = raw_name
+        locals_["objName"] = "=inputs.objName"
+        api["name"] = "=locals.objName"
+    elif prog.get("nameVia"):
+        inputs["objName"] = raw_name
         api["name"] = "=inputs.objName"
     else:
         api["name"] = name
@@ -434,8 +452,12 @@ def build(prog: dict) -> dict:
             inputs["objNs"] = prog["nsEmpty"]
         ns = None
     elif ns is not None:
-        if prog.get("nsVia"):
-            inputs["objNs"] = ns
+        if prog.get("nsVia") == "locals":
+            inputs["objNs"] = raw_ns
+            locals_["objNs"] = "=inputs.objNs"
+            api["namespace"] = "=locals.objNs"
+        elif prog.get("nsVia"):
+            inputs["objNs"] = raw_ns
             api["namespace"] = "=inputs.objNs"
         else:
             api["namespace"] = ns
@@ -445,6 +467,8 @@ def build(prog: dict) -> dict:
         if flags.get(k):
             api[k] = True
     spec: dict = {"apiConfig": api}
+    if locals_:
+        spec["locals"] = locals_
     templates, vfs = {}, {}
     # template
     ttree = layer_tree("template", prog)
@@ -534,8 +558,13 @@ def run_program(prog: dict) -> dict:
         b["obs"] = test_first(b["spec"], b["objects"], b["inputs"], b["owner"], b["templates"], b["vfs"],
                               function_test_for(prog, b), "another" if ft["order"].endswith("another") else "reprepare")
         return b
+    configure = None
+    if prog.get("fault") is not None:
+        # the server answers the mutating call (call 1; call 0 is the load) with this status
+        def configure(c, code=prog["fault"]):
+            c.faults[1] = code
     obs = reconcile(b["spec"], objects=b["objects"], inputs=b["inputs"], owner=b["owner"],
-                    templates=b["templates"], value_functions=b["vfs"],
+                    templates=b["templates"], value_functions=b["vfs"], configure=configure,
                     function_test=function_test_for(prog, b) if prog.get("functionTest") else None)
     b["obs"] = obs
     return b
@@ -732,3 +761,47 @@ def prepare_all_reconcile_some(progs: list, which: list) -> list:
     for i, o in zip(which, obs):
         builds[i]["obs"] = o
     return [builds[i] for i in which]
+
+
+# ------------------------------------------------------------------ one prepared function, several reconciles (C06)
+
+async def _reconcile_rounds(builds):
+    from koreo.resource_function.reconcile import reconcile_resource_function
+
+    ku.reset()
+    b0 = builds[0]
+    for name, tspec in b0["templates"].items():
+        await ku.offer_resource_template(name, copy.deepcopy(tspec))
+    for name, vspec in b0["vfs"].items():
+        await ku.offer_value_function(name, copy.deepcopy(vspec))
+    fn = await ku.offer_resource_function("rf", copy.deepcopy(b0["spec"]))
+    out = []
+    for b in builds:
+        c = cl.Cluster(objects=copy.deepcopy(b["objects"]))
+        c.log_lookups = True
+        if not hasattr(fn, "crud_config"):
+            out.append({"prepared": False, "prepare": ku.outcome_obs(fn), "cluster": c, "raised": None, "outcome": None,
+                        "resource_id": None})
+            continue
+        raised, res = None, None
+        try:
+            res = await reconcile_resource_function(api=c, location="verif", function=fn,
+                                                    owner=(b["owner"][0], copy.deepcopy(b["owner"][1])),
+                                                    inputs=celpy.json_to_cel(b["inputs"]))
+        except Exception as e:
+            raised = f"{type(e).__name__}: {e}"
+        out.append({"prepared": True, "cluster": c, "raised": raised, "outcome": None if res is None else res.outcome,
+                    "resource_id": None if res is None else copy.deepcopy(res.resource_id)})
+    return out
+
+
+def reconcile_rounds(progs: list) -> list:
+    """ONE prepared function (the programs must give the same spec and differ in inputs only) reconciled once per
+    program, in order, each round with its own inputs against a cluster of its own; returns the builds with `obs`"""
+    builds = [build(p) for p in progs]
+    for b in builds[1:]:
+        if dumps(b["spec"]) != dumps(builds[0]["spec"]):
+            raise ValueError("reconcile_rounds: the rounds must share one spec")
+    for b, o in zip(builds, ku.run(_reconcile_rounds(builds))):
+        b["obs"] = o
+    return builds
